@@ -686,6 +686,208 @@ OPS.update({
 
 
 # ------------------------------------------------------------------------------------------------
+# shift / normalise family: full grid  (operand size < = > destination size) x (shift class) x both families
+# ------------------------------------------------------------------------------------------------
+# The scratch of these kernels (a carry buffer, for the right shifts and the normalisations also a spare limb) is
+# initialised on different paths depending on how the operand falls on the destination after the limb shift: by the
+# first "carry only" step when limbs of the operand are discarded, by an explicit zero fill otherwise, and a second
+# zero fill when the operand ends up entirely below the destination.  Every (relation, class) cell is generated for
+# both families; `GRID[op]` gives the cells, the i-th shape of an operation takes cell (i // 2) % len(cells) and back end
+# GRID_BES[i % 4], so two consecutive shapes are the same cell on FFT64 and NTT120.
+GRID_BES = ["fft64ref", "ntt120ref", "fft64avx", "ntt120avx"]
+REL = ["a_lt_res", "a_eq_res", "a_gt_res"]
+LSH_CLASSES = ["k0", "k_lt_b", "k_eq_b", "limbs_bits", "k_ge_size_b", "fits_after_limb_shift_bits", "fits_after_limb_shift_exact"]
+RSH_CLASSES = ["k0", "k_lt_b", "k_eq_b", "limbs_bits", "k_ge_size_b_gap", "lands_inside_bits", "lands_inside_exact"]
+OFF_CLASSES = ["off0", "off_lt_b", "off_eq_b", "off_limbs_bits", "off_ge_asize_b", "off_neg_bits", "off_neg_b", "off_neg_limbs_bits",
+               "off_below_res_gap_small", "off_below_res_gap_large"]
+
+
+def _sizes(rng, rel):
+    if rel == "a_lt_res":
+        r = rng.range(2, 5)
+        return r, rng.range(1, r - 1)
+    if rel == "a_eq_res":
+        r = rng.range(1, 4)
+        return r, r
+    a = rng.range(2, 5)
+    return rng.range(1, a - 1), a
+
+
+def _lsh_k(rng, cls, r, a, b):
+    rem = rng.range(1, b - 1)
+    if cls == "k0":
+        return 0
+    if cls == "k_lt_b":
+        return rem
+    if cls == "k_eq_b":
+        return b
+    if cls == "limbs_bits":
+        return rng.range(1, max(1, max(r, a) - 1)) * b + rem
+    if cls == "k_ge_size_b":
+        return max(r, a) * b + rng.choice([0, rem, b + rem])
+    # the operand has more limbs than the destination but fits again after the limb shift: res < a <= res + k / b
+    # (for a <= res: the largest shift that still leaves one limb of the operand / exactly consumes the operand)
+    steps = (a - r) if a > r else (a if a < r else max(1, a - 1))
+    return steps * b + (rem if cls.endswith("_bits") else 0)
+
+
+def _rsh_k(rng, cls, r, a, b):
+    rem = rng.range(1, b - 1)
+    if cls == "k0":
+        return 0
+    if cls == "k_lt_b":
+        return rem
+    if cls == "k_eq_b":
+        return b
+    if cls == "limbs_bits":
+        return rng.range(1, max(1, r - 1)) * b + rem
+    if cls == "k_ge_size_b_gap":
+        return (r + rng.range(0, 2)) * b + rng.choice([0, rem])
+    # the shifted operand lands exactly inside the destination (nothing discarded: the carry is zero-filled), or,
+    # when it is not shorter, the shift that moves all of it out but one limb
+    steps = (r - a) if a < r else max(1, r - 1)
+    return steps * b + (rem if cls.endswith("_bits") else 0)
+
+
+def _off(rng, cls, r, a, b, ab):
+    """res_offset (in bits of the operand's radix `ab`; the destination has `r` limbs of radix `b`)"""
+    rem = rng.range(1, ab - 1)
+    if cls == "off_below_res_gap_small":      # operand entirely below the destination, by less than 64 bits
+        return -(((r * b + ab - 1) // ab + 1) * ab)
+    if cls == "off_below_res_gap_large":      # ... by 64 bits or more (the cross-radix path zero-fills the carry)
+        return -(((r * b + 64 + ab - 1) // ab + 1 + rng.range(0, 2)) * ab + rng.choice([0, rem]))
+    return {"off0": 0, "off_lt_b": rem, "off_eq_b": ab, "off_limbs_bits": rng.range(1, max(1, a - 1)) * ab + rem,
+            "off_ge_asize_b": a * ab + rng.choice([0, rem]), "off_neg_bits": -rem, "off_neg_b": -ab,
+            "off_neg_limbs_bits": -(rng.range(1, max(1, r - 1)) * ab + rem)}[cls]
+
+
+# ---- which initialisation path of the scratch temporaries a shape takes (mirrors the branch conditions of
+# poulpy-cpu-ref/src/reference/vec_znx/{shift,normalize}.rs and reference/ntt120/vec_znx_big.rs)
+def branch_lsh(r, a, k, b):
+    steps = k // b
+    if steps >= max(r, a):
+        return "early_return"
+    min_size = min(r, max(a - steps, 0))
+    first = min(steps + min_size, a) < a          # some limbs of the operand only contribute their carry
+    return ("carry_by_first_step" if first else "carry_zero_filled") + ("+main" if min_size > 0 else "+no_main")
+
+
+def branch_lsh_assign(r, k, b):
+    return "early_return" if k // b >= r else "carry_by_first_step"
+
+
+def branch_rsh(r, a, k, b):
+    steps = -(-k // b)
+    a_start = min(a, max(r - steps, 0))
+    return ("carry_zero_filled" if a - a_start == 0 else "carry_by_first_step") + ("+gap_spare_zero_filled" if steps > r else "+no_gap")
+
+
+def branch_rsh_assign(r, k, b):
+    steps = -(-k // b)
+    return ("carry_zero_filled" if steps == 0 else "carry_by_first_step") + ("+gap_spare_zero_filled" if steps > r else "+no_gap")
+
+
+def branch_normalize(r, a, off, b, ab):
+    lsh, lo = off % ab, off // ab                 # python floor division = the corrected (lsh, limbs_offset) of the Rust code
+    if b == ab:
+        a_start = min(max(r + lo, 0), a)
+        return "inter:" + ("carry_zero_filled" if a - a_start == 0 else "carry_by_first_step") + ("+gap_spare_zero_filled" if -lo > r else "+no_gap")
+    a_tot, r_tot = a * ab, r * b
+    res_start = -(-min(max(a_tot - lo * ab, 0), r_tot) // b)
+    if res_start == 0:
+        return "cross:early_return"
+    a_start = -(-min(max(r_tot + lo * ab, 0), a_tot) // ab)
+    gap_bits = max(-lo * ab - r_tot, 0)
+    return ("cross:" + ("carry_zero_filled" if a - a_start == 0 else "carry_by_first_step")
+            + ("+no_gap" if gap_bits == 0 else "+gap_scaled" if gap_bits < 64 else "+gap_carry_zero_filled"))
+
+
+BRANCHES = {
+    ("lsh", True): ["early_return", "carry_zero_filled+main", "carry_zero_filled+no_main", "carry_by_first_step+main"],
+    ("lsh", False): ["early_return", "carry_by_first_step"],
+    ("rsh", True): ["carry_zero_filled+no_gap", "carry_by_first_step+no_gap", "carry_by_first_step+gap_spare_zero_filled"],
+    ("rsh", False): ["carry_zero_filled+no_gap", "carry_by_first_step+no_gap", "carry_by_first_step+gap_spare_zero_filled"],
+    ("off", True): ["inter:carry_zero_filled+no_gap", "inter:carry_by_first_step+no_gap", "inter:carry_by_first_step+gap_spare_zero_filled",
+                    "cross:early_return", "cross:carry_zero_filled+no_gap", "cross:carry_by_first_step+no_gap",
+                    "cross:carry_by_first_step+gap_scaled", "cross:carry_by_first_step+gap_carry_zero_filled"],
+}
+
+
+def shape_branch(kind, two_operand, d):
+    r, b = d["size"], d["b2k"]
+    a = d.get("asize", r)
+    if kind == "lsh":
+        return branch_lsh(r, a, d["sh"], b) if two_operand else branch_lsh_assign(r, d["sh"], b)
+    if kind == "rsh":
+        return branch_rsh(r, a, d["sh"], b) if two_operand else branch_rsh_assign(r, d["sh"], b)
+    return branch_normalize(r, a, -d["roff"] if d["rneg"] else d["roff"], b, d["ab2k"])
+
+
+def grid_gen(kind, two_operand, glwe=False):
+    """generator with an internal counter walking the grid (each cell twice in a row: the two families).  Cells: every
+    (size relation, shift class), then one cell per initialisation path of the scratch temporaries (rejection sampling)."""
+    classes = {"lsh": LSH_CLASSES, "rsh": RSH_CLASSES, "off": OFF_CLASSES}[kind]
+    rels = REL if two_operand else ["a_eq_res"]
+    cells = [(rel, c) for rel in rels for c in classes] + [("path", br) for br in BRANCHES[(kind, two_operand)]]
+    state = {"i": 0}
+
+    def one(rng, big, rel, cls, cross=None):
+        b = rng.choice(RADICES)
+        r, a = _sizes(rng, rel)
+        if big:
+            r, a = r + rng.range(0, 20), a + rng.range(0, 20)
+        d = {"size": r, "b2k": b}
+        if glwe:
+            d["rank"] = rng.range(0, 2)
+        if two_operand:
+            d["asize"] = a
+        if kind == "lsh":
+            d["sh"] = _lsh_k(rng, cls, r, a, b)
+        elif kind == "rsh":
+            d["sh"] = _rsh_k(rng, cls, r, a, b)
+        else:
+            if cross is None:
+                cross = rng.chance(1, 3)
+            ab = rng.choice([x for x in RADICES if x != b]) if cross else b
+            off = _off(rng, cls, r, a, b, ab)
+            d.update({"ab2k": ab, "roff": abs(off), "rneg": 1 if off < 0 else 0})
+        return d
+
+    def gen(rng, big):
+        rel, cls = cells[(state["i"] // 2) % len(cells)]
+        state["i"] += 1
+        if rel != "path":
+            d = one(rng, big, rel, cls)
+        else:
+            for _ in range(2000):
+                d = one(rng, False, rng.choice(rels), rng.choice(classes), cross=cls.startswith("cross:") if kind == "off" else None)
+                if shape_branch(kind, two_operand, d) == cls:
+                    break
+            else:
+                raise RuntimeError(f"initialisation path {cls} of the {kind} family not reachable by the generator")
+        d["cell"] = f"{rel}.{cls}".replace(":", "_").replace("+", "_")
+        d["path"] = shape_branch(kind, two_operand, d).replace(":", "_").replace("+", "_")
+        return d
+    gen.cells = [(rel, c.replace(":", "_").replace("+", "_")) for rel, c in cells]
+    gen.kind = (kind, two_operand)
+    return gen
+
+
+GRID = {
+    "vec_znx_lsh": grid_gen("lsh", True), "vec_znx_lsh_add_into": grid_gen("lsh", True), "vec_znx_lsh_sub": grid_gen("lsh", True),
+    "vec_znx_lsh_assign": grid_gen("lsh", False),
+    "vec_znx_rsh": grid_gen("rsh", True), "vec_znx_rsh_add_into": grid_gen("rsh", True), "vec_znx_rsh_sub": grid_gen("rsh", True),
+    "vec_znx_rsh_assign": grid_gen("rsh", False),
+    "vec_znx_normalize": grid_gen("off", True), "vec_znx_big_normalize": grid_gen("off", True),
+    "vec_znx_big_normalize_add_assign": grid_gen("off", True), "vec_znx_big_normalize_sub_assign": grid_gen("off", True),
+    "glwe_lsh": grid_gen("lsh", True, True), "glwe_lsh_add": grid_gen("lsh", True, True), "glwe_lsh_sub": grid_gen("lsh", True, True),
+    "glwe_lsh_assign": grid_gen("lsh", False, True), "glwe_rsh": grid_gen("rsh", False, True),
+}
+for _op, _g in GRID.items():
+    OPS[_op] = (_g, ALL, True, 2 if _op.startswith("glwe_") or "big" in _op else 1)
+
+
+# ------------------------------------------------------------------------------------------------
 # coverage accounting: every `*_tmp_bytes` query found by tools/list_tmp_bytes.py must appear here
 #   ("ops", [entries of OPS])      modelled: formula tied, the listed operations run / compared
 #   ("alias", "<query>")           returns the value of another query without an operation of its own (counted once, with it)
@@ -700,14 +902,14 @@ def _ops(*names):
 COVERS = {
     # poulpy-hal / back ends
     "vec_znx_normalize_tmp_bytes": _ops("vec_znx_normalize", "vec_znx_normalize_assign"),
-    "vec_znx_lsh_tmp_bytes": _ops("vec_znx_lsh", "vec_znx_lsh_assign"),
-    "vec_znx_rsh_tmp_bytes": _ops("vec_znx_rsh", "vec_znx_rsh_assign"),
+    "vec_znx_lsh_tmp_bytes": _ops("vec_znx_lsh", "vec_znx_lsh_assign", "vec_znx_lsh_add_into", "vec_znx_lsh_sub"),
+    "vec_znx_rsh_tmp_bytes": _ops("vec_znx_rsh", "vec_znx_rsh_assign", "vec_znx_rsh_add_into", "vec_znx_rsh_sub"),
     "vec_znx_rotate_assign_tmp_bytes": _ops("vec_znx_rotate_assign"),
     "vec_znx_automorphism_assign_tmp_bytes": _ops("vec_znx_automorphism_assign"),
     "vec_znx_mul_xp_minus_one_assign_tmp_bytes": _ops("vec_znx_mul_xp_minus_one_assign"),
     "vec_znx_split_ring_tmp_bytes": _ops("vec_znx_split_ring"),
     "vec_znx_merge_rings_tmp_bytes": _ops("vec_znx_merge_rings"),
-    "vec_znx_big_normalize_tmp_bytes": _ops("vec_znx_big_normalize"),
+    "vec_znx_big_normalize_tmp_bytes": _ops("vec_znx_big_normalize", "vec_znx_big_normalize_add_assign", "vec_znx_big_normalize_sub_assign"),
     "vec_znx_big_automorphism_assign_tmp_bytes": _ops("vec_znx_big_automorphism_assign"),
     "vec_znx_idft_apply_tmp_bytes": _ops("vec_znx_idft_apply"),
     "vmp_prepare_tmp_bytes": _ops("vmp_prepare"),
@@ -758,7 +960,7 @@ COVERS = {
     "glwe_to_lwe_key_prepare_tmp_bytes": _ops("glwe_to_lwe_key_prepare"),
     # poulpy-core: operations
     "glwe_normalize_tmp_bytes": _ops("glwe_normalize", "glwe_normalize_assign"),
-    "glwe_shift_tmp_bytes": _ops("glwe_rsh", "glwe_lsh", "glwe_lsh_assign"),
+    "glwe_shift_tmp_bytes": _ops("glwe_rsh", "glwe_lsh", "glwe_lsh_assign", "glwe_lsh_add", "glwe_lsh_sub"),
     "glwe_rotate_tmp_bytes": _ops("glwe_rotate_assign", "glwe_mul_xp_minus_one_assign"),
     "ggsw_rotate_tmp_bytes": _ops("ggsw_rotate_assign"),
     "glwe_mul_const_tmp_bytes": _ops("glwe_mul_const", "glwe_mul_const_assign"),
@@ -1048,6 +1250,8 @@ def run(ctx):
     n_big = 30 if quick else 400
     small_n = [2, 4, 8, 16, 32]
     cases = []      # dict(op, be, n, shape, mis, win(None|int), kind)
+    grid_cells = {}  # op -> cell -> families generated
+    grid_paths = {}  # op -> initialisation path of the scratch temporaries -> families
     for (op, bes, n, shape) in CORPUS:
         for be in bes:
             for m in (0, 24):
@@ -1060,8 +1264,12 @@ def run(ctx):
             be = bes[i % len(bes)]
             n = 1 << r.range(3, 16)
             cases.append(dict(op=op, be=be, n=n, shape=gen(r, True), mis=0, win=None, kind="tb"))
-        for i in range(n_shapes if op not in HEAVY else max(len(bes), n_shapes // 5)):
-            be = bes[i % len(bes)]
+        grid = GRID.get(op)
+        cnt = n_shapes if op not in HEAVY else max(len(bes), n_shapes // 5)
+        if grid is not None:                          # every cell of the grid on both families (quick) / all four back ends
+            cnt = len(grid.cells) * (2 if quick else 4)
+        for i in range(cnt):
+            be = bes[i % len(bes)] if grid is None else GRID_BES[i % 4]
             ns = [x for x in small_n if x >= nmin and (x >= 2 or fam(be) == "ntt120")]
             if fam(be) == "fft64" and (op in USES_VMP or op.startswith("glwe_mul_const")):
                 ns = [x for x in ns if x >= 8]        # the FFT64 vmp kernels assert n >= 8
@@ -1075,7 +1283,10 @@ def run(ctx):
             if op == "bdd_2w_to_1w":                  # packing of the 32 output bits: log_gap = log_n - 5
                 shape["rounds"] = 5
                 shape["iters"] = n.bit_length() - 1 - 5
-            if i < len(bes):                          # boundary class: single-limb operands, once per back end
+            if grid is not None:
+                grid_cells.setdefault(op, {}).setdefault(shape["cell"], set()).add(fam(be))
+                grid_paths.setdefault(op, {}).setdefault(shape["path"], set()).add(fam(be))
+            elif i < len(bes):                        # boundary class: single-limb operands, once per back end
                 lo = 2 if ("rdnum" in shape or op in GGSW_RESULT) else 1      # matrix operands need size > dsize
                 for f in ("size", "asize", "pksize", "bsize", "lsize", "alsize"):
                     if f in shape:
@@ -1092,6 +1303,19 @@ def run(ctx):
                 cases.append(dict(op=op, be=be, n=n, shape=shape, mis=m, win=None, kind="exact"))
             cases.append(dict(op=op, be=be, n=n, shape=shape, mis=mis_list[-1], win="req", kind="req"))
             cases.append(dict(op=op, be=be, n=n, shape=shape, mis=mis_list[-1], win="req-8", kind="req-8"))
+
+    # ---- the shift / normalise grid: every cell generated on both families
+    ctx.cov["shift_normalise_grid"] = {op: {cell: sorted(f) for cell, f in sorted(cs.items())} for op, cs in sorted(grid_cells.items())}
+    ctx.cov["scratch_initialisation_paths"] = {op: {p_: sorted(f) for p_, f in sorted(ps.items())} for op, ps in sorted(grid_paths.items())}
+    for op, g in GRID.items():
+        for br in BRANCHES[g.kind]:
+            br = br.replace(":", "_").replace("+", "_")
+            if grid_paths.get(op, {}).get(br, set()) != {"fft64", "ntt120"}:
+                broken.append(f"initialisation path {br} of {op} not generated on both families")
+        for (rel, cls) in g.cells:
+            fams = grid_cells.get(op, {}).get(f"{rel}.{cls}", set())
+            if fams != {"fft64", "ntt120"}:
+                broken.append(f"grid cell {op} {rel}.{cls} generated for {sorted(fams)} only")
 
     # ---- model pass 1 (exact windows; gives req for the control windows)
     def mline(k, c, win=None):
@@ -1157,7 +1381,7 @@ def run(ctx):
             continue
         shape_cls = (c["n"] < 8, c["shape"].get("size", 0) % 8 == 0, c["shape"].get("dsize", 1) > 1,
                      c["shape"].get("ab2k", c["shape"].get("b2k")) != c["shape"].get("kb2k", c["shape"].get("b2k")),
-                     c["shape"].get("rank", 1))
+                     c["shape"].get("rank", 1), c["shape"].get("cell", ""))
         # gate 2: formula equality
         if int(r["tb"]) != int(m["tb"]):
             ctx.disagreements += 1
